@@ -7,7 +7,7 @@ from props.c16 import gen_specs, render, flat_text, count_positions  # noqa: F40
 
 ID = 'C14'
 DOMAIN = 'gin/stmts+files'
-PROPS_FILES = ['Gin/Props/C14.lean']
+PROPS_FILES = ['Gin/Props/C14.lean', 'Gin/Props/C14b.lean']
 ANCHOR_FILES = ['config.py', 'resource_reader.py']
 RULE = ('(a) include trees of depth up to 3 written to real temporary files, with bindings of the same parameter before and '
         'after include statements and inside the included files, parsed through parse_config / parse_config_file / '
